@@ -102,3 +102,20 @@ fn ascii_vocabulary_is_the_published_lexicon() {
     assert!(f.space.parse == " ");
 }
 
+
+/// C16 (one ingredient of unambiguity): within each group the Typst markup constants are pairwise
+/// different, so two different constructors / copulas / punctuations / tenses never share markup.
+#[kani::proof]
+#[kani::unwind(80)]
+fn typst_markup_constants_distinct_within_groups() {
+    use narsese::conversion::string::typst_formatter::*;
+    assert!(distinct(&[TERM_PREFIX_WORD, TERM_PREFIX_PLACEHOLDER, TERM_PREFIX_I_VAR, TERM_PREFIX_D_VAR, TERM_PREFIX_Q_VAR, TERM_PREFIX_INTERVAL, TERM_PREFIX_OPERATOR]));
+    assert!(distinct(&[CONNECTER_EXT_INTERSECT, CONNECTER_INT_INTERSECT, CONNECTER_EXT_DIFFERENCE, CONNECTER_INT_DIFFERENCE, CONNECTER_PRODUCT,
+        CONNECTER_EXT_IMAGE, CONNECTER_INT_IMAGE, CONNECTER_CONJUNCTION, CONNECTER_DISJUNCTION, CONNECTER_NEGATION, CONNECTER_SEQ_CONJUNCTION, CONNECTER_PAR_CONJUNCTION]));
+    assert!(distinct(&[COPULA_INHERITANCE, COPULA_SIMILARITY, COPULA_IMPLICATION, COPULA_EQUIVALENCE, COPULA_IMPLICATION_PREDICTIVE,
+        COPULA_IMPLICATION_CONCURRENT, COPULA_IMPLICATION_RETROSPECTIVE, COPULA_EQUIVALENCE_PREDICTIVE, COPULA_EQUIVALENCE_CONCURRENT]));
+    assert!(distinct(&[PUNCTUATION_JUDGEMENT, PUNCTUATION_GOAL, PUNCTUATION_QUESTION, PUNCTUATION_QUEST]));
+    assert!(distinct(&[STAMP_ETERNAL, STAMP_PAST, STAMP_PRESENT, STAMP_FUTURE, STAMP_FIXED]));
+    assert!(BRACKETS_EXT_SET.0 != BRACKETS_INT_SET.0 && BRACKETS_COMPOUND.0 != BRACKETS_STATEMENT.0
+        && BRACKETS_COMPOUND.0 != BRACKETS_EXT_SET.0 && BRACKETS_COMPOUND.0 != BRACKETS_INT_SET.0);
+}
